@@ -131,7 +131,17 @@ def run_case(case):
     from pdb2pqr import debump
 
     res = {"evals": 1, "violations": [], "events": {}, "nontrivial": None}
-    built = s3.build_case(case)
+    if case.get("kind") == "strand":
+        # nucleic acids have no rotatable side chains: nothing may move
+        in_atoms = build.build_strand(case["seq"], naming=case["naming"])
+        text = build.pdb_text(in_atoms)
+        for a in in_atoms:
+            a["name"] = build.strand_canonical_name(a["name"])
+        info = [{"kind": "na", "input": nm, "res_seq": 1 + i,
+                 "position": "-"} for i, nm in enumerate(case["seq"])]
+        built = (text, info, in_atoms)
+    else:
+        built = s3.build_case(case)
     if built is None:
         res["events"]["pose-rejected"] = 1
         res["evals"] = 0
@@ -260,7 +270,11 @@ def run_case(case):
             is_bb = a["name"] in ("N", "CA", "C", "O", "OXT")
             base = T.base_of(inf["input"]) if inf else a["res_name"]
             pos = inf["position"] if inf and inf.get("position") else "-"
-            if is_bb:
+            if inf and inf["kind"] == "na":
+                viol.append((f"C04/final/{base}/nucleic-acid-atom-moved:"
+                             f"{a['name']}", {"displacement": d,
+                                              "opt": case["opt"]}))
+            elif is_bb:
                 viol.append((f"C04/final/{base}/{pos}/backbone-or-cap-moved:"
                              f"{a['name']}", {"displacement": d,
                                               "opt": case["opt"]}))
@@ -348,6 +362,13 @@ def enumerate_cases(tier, seed):
     cases += s3.tetra_partner_cases("AMBER")
     cases += s3.torsion_cases("AMBER")
     cases += s3.alias_cases()
+    for seq, naming in ((["DA", "DT", "DG", "DC"], "legacy"),
+                        (["RA", "RU", "RG", "RC"], "modern"),
+                        (["DT", "DC"], "star"), (["RG", "RU"], "short")):
+        for ff in ("AMBER", "CHARMM"):
+            for opt in ("default", "nodebump_noopt"):
+                cases.append({"kind": "strand", "seq": seq, "naming": naming,
+                              "ff": ff, "opt": opt, "env": []})
     wfiles = (["1AJJ.pdb", "1BX8.pdb", "cterm_hid.pdb"] if tier == "quick"
               else None)
     cases += s3.window_cases("AMBER", wfiles)
